@@ -380,8 +380,17 @@ where
         for &op_type in &op_types {
             let prep_base = &non_primitive_base[op_type];
             // TablePacking overrides the builder's own default lane count.
+            // The coefficient-lookup variant of the recompose table follows the plain recompose
+            // override, as the prover does when it builds the table instance.
             let lanes = packing
                 .npo_lanes(op_type)
+                .or_else(|| {
+                    if *op_type == NpoTypeId::recompose_with_coeff_lookups() {
+                        packing.npo_lanes(&NpoTypeId::recompose())
+                    } else {
+                        None
+                    }
+                })
                 .unwrap_or_else(|| builder.lanes());
             if let Some((air, degree)) =
                 builder.try_build(op_type, prep_base, min_height, lanes, constraint_profile)
